@@ -1,23 +1,40 @@
 CHECK = {
     "level": "model_checking",
     "technique": "stateless bounded-exhaustive enumeration of closed executions of every flenp_* entry point on the real code "
-                 "(inputs x buffer states x chunk lists x destination capacities x source fragmentation scripts) against an "
-                 "independently written prefix codec",
+                 "(inputs x buffer states x chunk lists x destination capacities x source fragmentation scripts x sink answer scripts x "
+                 "request histories of two _n slices off one buffer) against an independently written prefix codec; counts beyond 2^31 are "
+                 "covered by structured boundary families through buffers/destinations that are never touched (fake extents over 16 real "
+                 "octets, an untouched 8 GiB anonymous mapping) and drivers that identify octets by address",
     "rule": "odometer, simplest first: encoders over every buffer state (offset<=used<=size<=S) x every n<=rest x 6 kinds x 8 entry "
-            "points x {chunk sink, octet sink}; every chunk list (<=C chunks, rest 0..3, lead/slack 0..1, active<=A) incl. empty and "
-            "inactive chunks; lengths 1..1100 and 65534..65536 on real memory; the 2^31/2^32/SSIZE_MAX maxima +-1 through fake "
-            "buffers and a segment sink that never dereferences beyond the 16 real octets; decoders over every destination buffer "
+            "points x {chunk sink, octet sink}; the two _n entry points on every buffer state (size<=4/6, offset>0 and empty included) asked "
+            "for n beyond every kind's maximum and beyond the content (256, 2^16, 2^31, and every value within size+1 of 2^32, SSIZE_MAX "
+            "and SIZE_MAX, i.e. every n for which offset+n wraps), followed by a second slice off the same buffer; "
+            "every chunk list (<=C chunks, rest 0..3, lead/slack 0..1, every active index<=A) incl. empty and "
+            "inactive chunks; the four sink encoders (lengths<=3/5) into sinks that answer within the driver contract but not all at "
+            "once: every placement of <=2/3 answers from {1, asked-1, 0, EINTR, EAGAIN} (octet sinks: {0, EINTR, EAGAIN}) over the "
+            "first 4/6 (6/8) sink calls; lengths 1..1100 and 65534..65536 on real memory; the 2^31/2^32/SSIZE_MAX maxima +-1 through fake "
+            "buffers and a segment sink that never dereferences beyond the 16 real octets, also with a first sink answer of 1, 2^31, "
+            "2^32-11, 2^32-4, 2^32-5, 2^32 octets (counts whose low 32 bits read as a negative number, an errno code or 0); "
+            "decoders over every destination buffer "
             "state and capacities len-1,len,len+1, lengths 1..1100 and the 16-bit maxima, 32-bit and SSIZE_MAX prefix values (never beyond the "
-            "kind's maximum) against real destinations of 1 and 7 octets; streams of 1..3 frames (<=L octets) under all 2^(L-1) fragmentations by a chunk source, a "
+            "kind's maximum) against real destinations of 1 and 7 octets; accepting decodes of 2^32-3, 2^32-1, 2^32+5, 2^33-3 octets into an "
+            "untouched mapping with a first source read of 1, 2^31, 2^32-11, 2^32-4, 2^32-5, 2^32, 2^33-4 octets; streams of 1..3 frames (<=L octets) under all 2^(L-1) fragmentations by a chunk source (streams <=10/13 octets also by a chunk source that offers a scratch "
+            "block of 1, 3 or 8 octets through the getbuffer extension, sink decoder), a "
             "130-octet frame (two-octet varint prefix) under all fragmentations with <=2 cuts, and the same streams through an "
             "octet source.  The quantifier text names no random part; nothing is sampled.  Non-trivial = buffer case where "
             "offset>0 or free space != unread or n<rest, chunk list with >1 chunk or an inactive chunk, stream with >=1 cut or "
-            ">=2 frames, every memory/decoder/maxima case.",
+            ">=2 frames, sink-script case in which a deviating answer was really delivered, every memory/decoder/maxima/refusal case.",
     "assumptions": [
         "64-bit little-endian host (size_t and ssize_t 64 bit)",
         "payload octets are position dependent pat(i)=1+i%199; payload *values* are not enumerated (framing does not look at them)",
-        "sinks accept a whole request per call (sink-side short writes belong to C17); sources fragment by positive short reads only "
-        "(0 / EINTR / EAGAIN answers belong to C17)",
+        "sinks answer within the driver contract of endpoints/core.c (a count <= asked, 0, -EINTR, -EAGAIN; hard sink errors are not "
+        "scripted: the statement does not say what an encoder does with them); sources fragment by positive short reads only "
+        "(0 / EINTR / EAGAIN answers of a source belong to C17; the varint prefix is read octet-wise through the at-most API)",
+        "_n entry points: n > unread content is only generated where n is also beyond the kind's maximum (then the statement demands "
+        "a refusal with nothing emitted); a refused _n request may or may not advance the buffer, but the read position must stay "
+        "inside [old offset, used] (clause *-position): a buffer is only ever advanced, and the next slice carries unread octets",
+        "counts >= 2^31 are observed by address: the drivers of those cases do not touch the octets (no 4 GiB allocation); an "
+        "implementation that bounces such transfers through a private buffer is not supported by these cases; the dec-huge family first probes both decoders on a 64 MiB mapping and is not run (run reported non-exhaustive) if they instantiate pages of it; a sink/source of these cases stops serving after 256 calls, and a run in which everything moved until then was the designated payload in order is not judged (an implementation that moves little per call)",
         "varint kind: lengths <= SSIZE_MAX-10 have to be accepted, > SSIZE_MAX (or a total that does not fit ssize_t) refused, "
         "the values in between are left open",
         "prefix-object encoders return a status: demanded >= 0 plus a prefix view (anywhere inside the object's prefix storage) "
@@ -26,7 +43,7 @@ CHECK = {
         "decoders: prefix values beyond the kind's maximum (varint: > SSIZE_MAX) are outside the statement and not generated; "
         "destinations are always real exact-size blocks (no claimed capacities), so a write inside the destination is never an alarm",
         "decode_source_to_sink: only a non-negative return is demanded on success (the sink content decides); "
-        "accepting decodes at the 32-bit maxima (4 GiB destinations) are not run",
+        "accepting decodes at the 32-bit maxima run for memory_from_source / buffer_from_source only (the sink decoder moves octet by octet)",
         "ASan red zones around exact-size heap blocks observe writes past a destination",
     ],
     "harnesses": [{
@@ -35,6 +52,9 @@ CHECK = {
         "min_outcomes": 10,
         "require_outcomes": {"any": ["enc-accept", "enc-refuse", "chunks-accept", "chunks-refuse",
                                      "encmax-accept", "encmax-refuse", "dec-accept", "dec-enomem",
-                                     "decmax-enomem", "stream-inorder", "stream2-inorder", "stream-octet"]},
+                                     "decmax-enomem", "stream-inorder", "stream2-inorder", "stream-octet",
+                                     "refuse-n", "refuse-n-offset", "refuse-n-then-slice",
+                                     "encbeh-zero-return", "encbeh-interruption", "encbeh-partial", "encbeh-mixed",
+                                     "encmax-partial-sink", "dechuge-accept", "stream-getbuffer"]},
     }],
 }
